@@ -8,6 +8,7 @@ package main
 import (
 	"bytes"
 	"fmt"
+	"sort"
 
 	"cosmossdk.io/math"
 
@@ -62,7 +63,6 @@ func c19Run(r *Run, reg string, depth, shard, shards int) {
 	g.SignatureThreshold = &cctptypes.SignatureThreshold{Amount: 1}
 	g.TokenPairList = nil
 	g.TokenMessengerList = nil
-	scn := Scenario{Name: "c19-" + reg, Ledger: BaseLedger(), Genesis: g}
 	signers := Keys[0:1]
 
 	tA := distinct32(0xC0)
@@ -80,6 +80,16 @@ func c19Run(r *Run, reg string, depth, shard, shards int) {
 	}
 	u.addPair(0, tShort)
 	u.addPair(1, tShort)
+	// "... established by successful transactions AND GENESIS" (round 6, C19r6-1): entries that only genesis can spell this
+	// way -- an upper-case attester key, an upper-case denom next to its lower-case twin, a mixed-case local token -- and the
+	// root of the search is judged against the genesis document, not against what the import made of it
+	g.AttesterList = append(g.AttesterList, cctptypes.Attester{Attester: Keys[3].Spell(2)})
+	g.PerMessageBurnLimitList = append(g.PerMessageBurnLimitList, cctptypes.PerMessageBurnLimit{Denom: "UOSMO", Amount: math.NewInt(7)})
+	g.TokenPairList = append(g.TokenPairList, cctptypes.TokenPair{RemoteDomain: 2, RemoteToken: tShort, LocalToken: "uUSDC"})
+	u.Attesters = append(u.Attesters, Keys[3].Spell(2))
+	u.Denoms = append(u.Denoms, "UOSMO")
+	u.addPair(2, tShort)
+	scn := Scenario{Name: "c19-" + reg, Ledger: BaseLedger(), Genesis: g}
 	for _, d := range []uint32{0, 1, 256} {
 		for _, t := range [][]byte{tA, tB, tC} {
 			u.addPair(d, t)
@@ -161,7 +171,15 @@ func c19Run(r *Run, reg string, depth, shard, shards int) {
 		Scn:      scn, MaxDepth: depth, ValidatePaths: shard == 0, RootShard: shard, RootShards: shards,
 		Init: func(r *Run, w *World, root *Node) {
 			v := ViewOf(w)
+			gv := ViewOfGenesis(&g)
+			sort.Strings(gv.Attesters) // the store (and every list query) orders attesters by key
+			v.Attesters, v.Limits, v.Pairs, v.Messengers, v.Used = gv.Attesters, gv.Limits, gv.Pairs, gv.Messengers, gv.Used
 			root.Model, root.MKey = v, ""
+			if errs := CheckQueries(w, v, u); len(errs) > 0 {
+				x := scn.Replay("actions", nil)
+				x.Expected, x.Observed = v.String(), joinMax(errs, 6)
+				r.Violate("C19 queries disagree with the genesis document: "+firstWords(errs[0], 3), joinMax(errs, 6), x)
+			}
 		},
 		Actions: func(n *Node, w *World) []Action { return menu },
 		Step: func(r *Run, pre *Node, a Action, o Outcome, w *World, post *Node) bool {
